@@ -476,10 +476,14 @@ class _Ev:
     def __call__(self, alt, mass, ph, tas_in=None, roc_in=None, record=True):
         L = lib()
         self.ctx.extra['queries'] = self.ctx.extra.get('queries', 0) + 1
-        p = self.model.evaluate(
-            L.AircraftState(altitude=alt, aircraft_mass=mass, true_airspeed=tas_in, rate_of_climb=roc_in),
-            L.RULES[ph],
-        )
+        state = L.AircraftState(altitude=alt, aircraft_mass=mass, true_airspeed=tas_in, rate_of_climb=roc_in)
+        p = self.model.evaluate(state, L.RULES[ph])
+        # the state is the caller's input ("depends only on altitude, mass and phase"; a symbolic mass means the
+        # extreme mass of whichever table it is evaluated against): evaluate must not write into it
+        now = (state.altitude, state.aircraft_mass, state.true_airspeed, state.rate_of_climb)
+        if now != (alt, mass, tas_in, roc_in) or type(state.aircraft_mass) is not type(mass):
+            soft_fail(self.ctx, 'depends.inputs', 'mismatch', 'legacy.interpolate', 'state_mutated',
+                      f'evaluate changed its input state from {(alt, mass, tas_in, roc_in)} to {now}')
         out = (p.true_airspeed, p.rate_of_climb, p.fuel_flow)
         if record and len(self.log) < 6:
             self.log.append((alt, mass, ph, out))
